@@ -26,9 +26,11 @@ class C20(Prop):
     def monitor(self, case_line, trace, mline):
         c = int(case_line.split(' ')[2])
         parts = trace.split(':')
-        if len(parts) != 3:
+        if len(parts) != 5:
             return 'malformed: trace %r' % trace
-        name, back, al = parts
+        name, back, al, byref, disp = parts
+        if int(byref) != c or disp != str(c):
+            return 'roundtrip: u16::from(&CloseCode::from(%d)) = %s, Display = %s' % (c, byref, disp)
         if int(back) != c:
             return 'roundtrip: u16::from(CloseCode::from(%d)) = %s' % (c, back)
         if (al == '1') != allowed(c):
